@@ -276,8 +276,26 @@ static void badfd_round(void){ int p[2]; if(pipe(p)) return; close(p[0]); close(
   if(atomic_load(&calls)!=1 || !atomic_load(&err)) fail("dispatch_write on a descriptor that is not open did not call its handler exactly once with an error (5 s): calls / error",atomic_load(&calls),atomic_load(&err),0);
   else if(atomic_load(&unw)!=(long)sz) fail("dispatch_write on a descriptor that is not open did not report its data as unwritten: reported / submitted",atomic_load(&unw),(long)sz,0);
   else if(atomic_load(dt)!=1) fail("the destructor of a data object handed to dispatch_write on a descriptor that is not open did not run exactly once after the application's release (5 s): runs",atomic_load(dt),0,0); }
+// the last reference of a source that was NOT cancelled is dropped (from outside its handlers, nothing else pending on it): the library
+// tears the source down by itself - its finalizer runs exactly once, on its target queue, and then the target queue (which only the
+// source kept alive) is finalised as well
+struct usr { _Atomic int sfin, qfin, sfin_on_q; dispatch_queue_t q; }; static char usr_key;
+static void usr_sfin(void *c){ struct usr *x=c; if(dispatch_get_specific(&usr_key)==x) atomic_store(&x->sfin_on_q,1); if(atomic_fetch_add(&x->sfin,1)) fail("the finalizer of an uncancelled, released source ran more than once",0,0,0); }
+static void usr_qfin(void *c){ struct usr *x=c; if(!atomic_load(&x->sfin)) fail("the target queue of a released source was finalised before the source",0,0,0); atomic_fetch_add(&x->qfin,1); }
+static void uncancelled_release_round(void){ for(int kind=0; kind<3 && !viol; kind++){ struct usr *x=calloc(1,sizeof *x); int p[2]; if(pipe(p)){}
+    dispatch_queue_t q=dispatch_queue_create("usr.q",NULL); dispatch_set_context(q,x); dispatch_set_finalizer_f(q,usr_qfin); dispatch_queue_set_specific(q,&usr_key,x,NULL);
+    dispatch_source_t s = kind==0 ? dispatch_source_create(DISPATCH_SOURCE_TYPE_DATA_ADD,0,0,q) : kind==1 ? dispatch_source_create(DISPATCH_SOURCE_TYPE_TIMER,0,0,q) : dispatch_source_create(DISPATCH_SOURCE_TYPE_READ,(uintptr_t)p[0],0,q);
+    if(kind==1) dispatch_source_set_timer(s,dispatch_time(DISPATCH_TIME_NOW,3600ll*1000000000ll),DISPATCH_TIME_FOREVER,0);
+    dispatch_set_context(s,x); dispatch_set_finalizer_f(s,usr_sfin); dispatch_source_set_event_handler(s,^{ });
+    dispatch_activate(s); if(rnd()%2) usleep(rnd()%3000);
+    dispatch_release(s); dispatch_release(q);
+    for(int w=0; w<25000 && !(atomic_load(&x->sfin) && atomic_load(&x->qfin)); w++) usleep(200);
+    if(atomic_load(&x->sfin)!=1) fail("an activated source released without having been cancelled was not finalised exactly once within 5 s: kind (0 data, 1 timer, 2 read) / finalizer runs",kind,atomic_load(&x->sfin),0);
+    else if(!atomic_load(&x->sfin_on_q)) fail("the finalizer of a released source did not run on its target queue: kind",kind,0,0);
+    else if(atomic_load(&x->qfin)!=1) fail("the target queue of a released source was not finalised once the source was gone (5 s): kind / runs",kind,atomic_load(&x->qfin),0);
+    close(p[0]); close(p[1]); } }
 static int nrounds, do_trace;
-static void *worker(void *a){ long me=(long)a; for(int r=0;r<nrounds && !viol;r++){ hierarchy(do_trace && me==0); if(r%4==0) source_round(); if(r%5==1) timer_reclock_round(); if(r%4==2) suspend_round(); if(r%3==0) data_round(); if(r%3==1) group_round(); if(r%4==3) iobarrier_round(); if(r%2==1) specific_race_round(); if(r%3==2) badfd_round(); if(r%2==0) retarget_round(do_trace && me==0); } return 0; }
+static void *worker(void *a){ long me=(long)a; for(int r=0;r<nrounds && !viol;r++){ hierarchy(do_trace && me==0); if(r%4==0) source_round(); if(r%5==1) timer_reclock_round(); if(r%4==2) suspend_round(); if(r%3==0) data_round(); if(r%3==1) group_round(); if(r%4==3) iobarrier_round(); if(r%2==1) specific_race_round(); if(r%3==2) badfd_round(); if(r%3==0) uncancelled_release_round(); if(r%2==0) retarget_round(do_trace && me==0); } return 0; }
 static void on_crash(int sig){ char b[220]; int n=snprintf(b,sizeof b,"ORACLE VIOL seed=%llu the library trapped or crashed (signal %d) during object life cycles (its own over-release / resurrection / corrupt-state check, or a use after free)\n",(unsigned long long)seed,sig); if(n>0) (void)!write(1,b,(size_t)n); _exit(1); }
 int main(int argc,char**argv){ seed=argc>1?strtoull(argv[1],0,0):1; nrounds=argc>2?atoi(argv[2]):60; int nthr=argc>3?atoi(argv[3]):3; do_trace=1;
   if(!getenv("ASAN_OPTIONS")){ signal(SIGILL,on_crash); signal(SIGSEGV,on_crash); signal(SIGABRT,on_crash); signal(SIGBUS,on_crash); }
